@@ -368,7 +368,7 @@ func TestVerifSyncerE2E(t *testing.T) {
 			ndiv++
 		}
 		for _, v := range viol {
-			res.Violate(v.sig, map[string]interface{}{"scenario": sc}, "%s\n(e2e scenario %+v)", v.text, sc)
+			res.Violate(v.sig, map[string]interface{}{"kind": v.sig["kind"], "scenario": sc}, "%s\n(e2e scenario %+v)", v.text, sc)
 		}
 	}
 }
